@@ -54,7 +54,11 @@ let () = each_line (fun l ->
           | ("UR" | "UL"), [k; i] -> OKeep (nn k, nn i)
           | _ -> failwith "model: bad op") in
         let m' = pool_step !model cop in
-        if not (pool_gate m' st.obs) then fails := (Printf.sprintf "%s@step%d" op !stepno) :: !fails
+        (* the verified equivalence decider is a subset construction: histories whose automata outgrow it are judged up to this step only *)
+        let nstates (a : ta) = List.length (List.sort_uniq compare (List.concat (List.map (fun r -> r.par :: r.ch) a.rules) @ a.finals)) in
+        let too_big = List.exists (fun (_, a) -> nstates a > 12) st.obs || List.exists (fun (_, a) -> nstates a > 12) m' in
+        if too_big then begin flags := "truncated_large" :: !flags; fails := "@@stop" :: !fails end
+        else if not (pool_gate m' st.obs) then fails := (Printf.sprintf "%s@step%d" op !stepno) :: !fails
         else begin
           (match st.tds with
            | Some tds -> if not (pool_gate m' tds) then fails := (Printf.sprintf "%s_topdown@step%d" op !stepno) :: !fails
@@ -74,8 +78,9 @@ let () = each_line (fun l ->
           model := st.obs
         end
       end) ops steps;
+    let fails = ref (List.filter (fun f -> f <> "@@stop") !fails) in
     (if !fails = [] then "OK" else
        let labs = List.map (fun f -> List.hd (String.split_on_char '@' f)) (List.rev !fails) in
        "FAIL " ^ String.concat "," labs ^ " at " ^ String.concat "," (List.rev !fails))
-    ^ " " ^ enc ^ (if List.mem "isect_nonempty" !flags then " isect_nonempty" else "")
+    ^ " " ^ enc ^ (if List.mem "isect_nonempty" !flags then " isect_nonempty" else "") ^ (if List.mem "truncated_large" !flags then " truncated_large" else "")
   | _ -> "FAIL exception " ^ o)
